@@ -117,7 +117,8 @@ theorem slice3_window (m : Mem) (base : Nat) (esz cap i j k : Int) (hesz : 0 ≤
   slice3_window' m base esz cap i j k hesz h s hs
 
 example : (0 : Int) ≤ 1 ∧ (1 : Int) ≤ 2 ∧ (2 : Int) ≤ 3 ∧ (3 : Int) ≤ 4 ∧
-    NewSlice3 10 8 4 1 2 3 = .ok ⟨18, 1, 2⟩ := by decide
+    NewSlice3 10 8 4 1 2 3 = .ok ⟨18, 1, 2⟩ :=
+  ⟨by decide, by decide, by decide, by decide, by simp [NewSlice3, advance]⟩
 
 /-! ## make, clear -/
 
